@@ -123,6 +123,11 @@ class RegGen:
                 op["i"] = self.i
                 self.i += 1
                 return op
+        if getattr(self, "plan", None):
+            op = self.plan.pop(0)
+            op["i"] = self.i
+            self.i += 1
+            return op
         kind = rng.choices(["base", "unit", "cat", "clear", "user"], weights=[w["base"], w["unit"], w["cat"], w["clear"], w["user"]])[0]
         op = getattr(self, "g_" + kind)(sim, model)
         op["i"] = self.i
@@ -282,6 +287,47 @@ class RegGen:
         return self._op("reg.AddCategory", "AddCategory", a, kw=kw, reg=reg)
 
     def g_clear(self, sim, model):
+        rng = self.rng
+        if self.cfg["world"] == "W-SYN" and rng.random() < 0.6:
+            # an application switches its unit table: after Clear() one quantity type comes back
+            # with as many units as before but other symbols; categories are then requested over
+            # the symbols that are gone and over the ones that came
+            for t in rng.sample(list(self.types), len(self.types)):
+                old = list(model.types[t]["order"]) if t in model.types else []
+                pool = [tuple(x) for x in self.T[t]]
+                if len(old) < 2 or len(pool) <= len(old) or not all(u in [x[0] for x in pool] for u in old):
+                    continue
+                new = None
+                for _try in range(8):
+                    cand = rng.sample(pool, len(old))
+                    if set(x[0] for x in cand) != set(old):
+                        new = cand
+                        break
+                if new is None:
+                    continue
+                plan = []
+                (u0, n0, _k0) = new[0]
+                plan.append(self._op("reg.AddUnitBase", "AddUnitBase", [t, n0, u0], reg={"kind": "AddUnitBase", "type": t, "unit": u0, "name": n0}))
+                for u, name, k in new[1:]:
+                    k = tuple(k) if isinstance(k, list) else (1.0 if k is None else k)
+                    fb, tb = self.conv(k)
+                    plan.append(self._op("reg.AddUnit", "AddUnit", [t, name, u, fb, tb], reg={"kind": "AddUnit", "type": t, "unit": u, "name": name, "k": list(k) if isinstance(k, tuple) else k, "default_category": None, "bad": None}))
+                gone = [u for u in old if u not in [x[0] for x in new]]
+                came = [x[0] for x in new if x[0] not in old]
+                c = rng.choice(self.cats)
+                reqs = []
+                if gone:
+                    reqs.append({"valid_units": [gone[0]]})
+                    reqs.append({"default_unit": gone[0]})
+                if came:
+                    reqs.append({"valid_units": [came[0], u0] if came[0] != u0 else [u0]})
+                    reqs.append({"default_unit": came[0], "override": True})
+                rng.shuffle(reqs)
+                for kwm in reqs:
+                    kw = {k: ({"L": v} if isinstance(v, list) else v) for k, v in kwm.items()}
+                    plan.append(self._op("reg.AddCategory", "AddCategory", [c, t], kw=kw, reg={"kind": "AddCategory", "category": c, "kw": dict(kwm, quantity_type=t)}))
+                self.plan = plan
+                break
         return self._op("reg.Clear", "Clear", [], reg={"kind": "Clear"})
 
     def g_user(self, sim, model):
